@@ -507,6 +507,11 @@ class Interp:
         if any(isinstance(p, (PartV, DName)) for p in pieces) and \
                 (not all(isinstance(p, (str, PartV, DName)) for p in pieces) or
                  any(isinstance(p, str) and not _re.fullmatch(r"[\w.]*", p) for p in pieces)):
+            if all(isinstance(p, (str, PartV)) for p in pieces):
+                # text built from name parts and literals other than dots (e.g. a relative path "<kind>/<name>/__init__.py"):
+                # a deterministic string, the parts rendered by an uninterpreted text-of-part function
+                text_of = z3.Function("text_of_part", PartS, z3.StringSort())
+                return SV(z3.Concat(*[z3.StringVal(p) if isinstance(p, str) else text_of(p.t) for p in pieces])) if len(pieces) > 1 else SV(text_of(pieces[0].t))
             # a message that mixes names with other values (only ever used as text): opaque string
             return SV(self.eng.fresh("msg", z3.StringSort()))
         if any(isinstance(p, (PartV, DName)) for p in pieces):
